@@ -154,13 +154,14 @@ def handleSearch : Handler := fun st op args =>
       | .ok (r, eng) => some (slotPut st name { sl with eng := eng }, fmtAnalyze (.ok (r, eng)))
     | none, _ => some (st, "bad-slot")
     | _, _ => some (st, "bad-pos")
-  | "gm", [name, ptok] =>
+  | "gm", name :: ptok :: rest =>
+    let k := match rest with | [k] => k.toNat?.getD 0 | _ => 0
     match slotGet st name, parsePos ptok with
     | some sl, some (p, true) =>
       let g := gameOf st sl.ev
       let eng := sl.eng
       let st := slotPut st name { sl with eng := default }
-      match getMove g sl.cfg (oracleOf 0) p eng with
+      match getMove g sl.cfg (oracleOf k) p eng with
       | .error e => some (st, fmtErr e)
       | .ok (m, eng) => some (slotPut st name { sl with eng := eng }, s!"m={fmtMove m} {fmtEng eng}")
     | none, _ => some (st, "bad-slot")
